@@ -665,3 +665,54 @@ Definition agree_outsideb (s : fspec) (proj_too : bool) (A : list N) (t t0 : tre
   (negb proj_too || amap_eqb (t_proj t) (t_proj t0))
   && forallb (fun u => memN u A || option_eqb erec_eqb (find_rec (U u) (t_ents t)) (find_rec (U u) (t_ents t0))) (all_uids s)
   && forallb (fun r => match r_uid r with U n => memN n (all_uids s) | Fresh _ => true end) (t_ents t).
+
+(* ------------------------------------------------------------------ correspondence helpers (evaluated in the case files) *)
+Definition is_some {A} (o : option A) : bool := match o with Some _ => true | None => false end.
+
+(* the raw scan of a library-produced file is the layout of the tree reconstructed from it *)
+Definition links_matchb (l1 l2 : list (key * addr)) : bool :=
+  Nat.eqb (List.length l1) (List.length l2) && forallb (fun p : key * addr => option_eqb addr_eqb (lookup (fst p) l2) (Some (snd p))) l1.
+Definition attrs_matchb (l1 l2 : amap) : bool :=
+  Nat.eqb (List.length l1) (List.length l2) && forallb (fun p : key * aval => option_eqb aval_eqb (lookup (fst p) l2) (Some (snd p))) l1.
+Definition scan_matchb (s : fspec) (sc : list (addr * amap * bool * list (key * addr))) : bool :=
+  Nat.eqb (List.length sc) (List.length (addresses s))
+  && forallb (fun e : addr * amap * bool * list (key * addr) =>
+                match e with
+                | (a, at_, d, ls) =>
+                    match layout_at s a with
+                    | Some n => attrs_matchb at_ (n_attrs n) && Bool.eqb d (is_some (n_data n)) && links_matchb ls (n_links n)
+                    | None => false
+                    end
+                end) sc.
+
+Definition subsetN (a b : list N) : bool := forallb (fun x => memN x b) a.
+Definition lost_of (s : fspec) (t0 t : tree) : list N :=
+  filter (fun u => is_some (find_rec (U u) (t_ents t0)) && negb (is_some (find_rec (U u) (t_ents t)))) (all_uids s).
+Definition altered_of (s : fspec) (t0 t : tree) : list N :=
+  filter (fun u => match find_rec (U u) (t_ents t0), find_rec (U u) (t_ents t) with
+                   | Some a, Some b => negb (erec_eqb a b)
+                   | _, _ => false
+                   end) (all_uids s).
+Definition fresh_of (t : tree) : nat :=
+  List.length (filter (fun r => match r_uid r with Fresh _ => true | U _ => false end) (t_ents t)).
+
+(* "the model, run on this deletion, yields this observation": error kind, set of lost entities, number of entities with
+   a new identifier; the observed altered entities are among those the model alters (an attribute equal to its class
+   default leaves no observable difference) and the project attributes change only if the model says so *)
+Definition check_obs (fuel : nat) (s : fspec) (t0 : tree) (x : item) (oerr : option err) (lost alt : list N) (fresh : nat)
+           (proj : bool) : bool :=
+  item_inb (layout s) x &&
+  match load fuel G (delete_item (layout s) x), oerr with
+  | Err e, Some e' => err_eqb e e'
+  | Ok t, None =>
+      let ml := lost_of s t0 t in
+      subsetN ml lost && subsetN lost ml
+      && subsetN alt (altered_of s t0 t)
+      && Nat.eqb (fresh_of t) fresh
+      && (negb proj || negb (amap_eqb (t_proj t) (t_proj t0)))
+  | _, _ => false
+  end.
+
+(* the intact file reads back as its content *)
+Definition intact_ok (fuel : nat) (s : fspec) : bool :=
+  match load fuel G (layout s) with Ok t => tree_eqb t (abs s) | Err _ => false end.
